@@ -23,7 +23,7 @@
 //     C01:markup-injection:<parser>        an element {urn:canary}canary appears in an output although the input tree had none
 //     C02:harness:<what>                   the harness's own code failed (never a finding; makes the check fail visibly)
 //
-// usage: parsers --tier quick|thorough --seed N [--workers N] [--depth N] [--only <parser substring>] [--docs <id substring>]
+// usage: parsers --tier quick|thorough --seed N [--mode c01|c02] [--workers N] [--depth N] [--only <parser substring>] [--docs <id substring>]
 //                [--per-doc K] [--no-mutations] [--no-probes] [--list] [--show-not-admitted]
 //        parsers --shrink-key <key> --shrink-parser <exact parser name> --shrink-xml <file>     (minimize a failing document)
 #include "c02_common.h"
@@ -69,6 +69,7 @@ static const char *shapeName(int s)
 struct Work { int type; int doc; int mut; int kind; int parser; int shape; int size; };   // parser < 0: every parser
 
 struct Cfg {
+    std::string mode;   // "" = all keys, "c01" = only C01: keys, "c02" = only C02: keys (C02:harness:* always)
     std::string tier = "quick";
     uint64_t seed = 1;
     int workers = 12;
@@ -133,6 +134,7 @@ static std::string fam(const std::string &name)
 }
 static bool isHeavyKind(int k) { return k == M_ATTR_LONG || k == M_TEXT_LONG || k == M_WIDE || k == M_DEEP; }
 
+static bool keyInMode(const std::string &key);
 static std::vector<vt::Codec> g_table;
 static std::vector<Doc> g_docs;          // regress + corpus + sub-elements
 static std::vector<Node> g_nodes;        // parsed (same index)
@@ -205,6 +207,7 @@ static void failLine(const std::string &key, const std::string &parser, const st
     std::string rep = "parser=" + parser + " doc=" + docId + " mut=" + (mut.empty() ? "none" : mut) + (note.empty() ? "" : " note=" + note) +
         " in=" + escLine(in, 1500) + " o1=" + escLine(o1, 900) + " o2=" + escLine(o2, 900);
     if (!o3.isEmpty()) rep += " o3=" + escLine(o3, 900);
+    if (!keyInMode(key)) return;
     printf("O FAIL %s\t%s\n", key.c_str(), rep.c_str());
     fflush(stdout);
     std::string sig;
@@ -217,6 +220,14 @@ extern "C" int __sanitizer_install_malloc_and_free_hooks(void (*malloc_hook)(con
 static volatile long long g_allocBytes = 0;
 static void onMalloc(const volatile void *, size_t n) { g_allocBytes = g_allocBytes + (long long)n; }
 static void onFree(const volatile void *) {}
+
+static bool keyInMode(const std::string &key)
+{
+    if (g_cfg.mode.empty() || key.rfind("C02:harness:", 0) == 0) return true;
+    if (g_cfg.mode == "c01") return key.rfind("C01:", 0) == 0;
+    if (g_cfg.mode == "c02") return key.rfind("C02:", 0) == 0;
+    return true;
+}
 
 static long long cpuMicros()
 {
@@ -521,7 +532,7 @@ int main(int argc, char **argv)
 {
     QCoreApplication app(argc, argv);
     vh::Args a = vh::parseArgs(argc, argv);
-    g_cfg.tier = a.tier; g_cfg.seed = a.seed;
+    g_cfg.tier = a.tier; g_cfg.seed = a.seed; g_cfg.mode = a.mode;
     if (const char *e = getenv("VERIF_WORKERS")) g_cfg.workers = atoi(e);
     for (int i = 1; i < argc; i++) {
         std::string s = argv[i];
@@ -547,8 +558,8 @@ int main(int argc, char **argv)
     if (g_cfg.workers > 32) g_cfg.workers = 32;
     bool quick = g_cfg.tier == "quick";
     if (g_cfg.depth <= 0) g_cfg.depth = quick ? 1000 : 10000;
-    if (g_cfg.perDoc < 0) g_cfg.perDoc = quick ? 4 : 40;
-    if (g_cfg.sweepShare < 0) g_cfg.sweepShare = quick ? 6 : 100;
+    if (g_cfg.perDoc < 0) g_cfg.perDoc = quick ? 3 : 40;
+    if (g_cfg.sweepShare < 0) g_cfg.sweepShare = quick ? 5 : 100;
 
     {   // registers the QXmppExportData extension parsers (roster, vcard) as a real client does
         QXmppClient registrar;
@@ -694,7 +705,8 @@ int main(int argc, char **argv)
                     auto df = lastD.split('\t');
                     if (df.size() == 3 && !df[2].contains("...[")) dumpFailingInput(key, parser, (df[0] + "|" + df[1]).toStdString(), unescLine(df[2]));
                 } else if (w && w->type == W_DOC) dumpFailingInput(key, parser, docId, g_docs[w->doc].xml);
-                if (++failCount[key] <= 3) {
+                if (!keyInMode(key)) { /* crash keys belong to C02 */ }
+                else if (++failCount[key] <= 3) {
                     printf("O FAIL %s\tparser=%s doc=%s stage=%s work=%zu seed=%llu kind=%s phase=%s exit=%d signal=%d cpu-budget=%ds %s | %s | base-document=%s | exact-input(id,mutation,xml)=%s | child-output=%s\n",
                            key.c_str(), parser.c_str(), docId.c_str(), stageName, k, (unsigned long long)g_cfg.seed, kind.c_str(), phaseName(r.phase), r.exitCode, r.signal,
                            g_cfg.cpuBudget, escLine(QByteArray::fromStdString(first), 300).c_str(), escLine(QByteArray::fromStdString(summary), 300).c_str(),
@@ -843,7 +855,7 @@ int main(int argc, char **argv)
             else if (expoT > 1.8 && hi.second >= 1000000) report("C02:superlinear-cpu:" + fam(f[0].toStdString()) + ":" + shapeName(shape), expoT, "cpu-time");
             else if (expoT > 1.6 && hi.second >= 50000) { vh::stat("cpu_superlinear_suspects"); if (xLeft > 0) { xLeft--; printf("X cpu-time suspect (not reported): %s %s %s exponent %.2f:%s\n", f[0].constData(), f[1].constData(), shapeName(shape), expoT, series.c_str()); } }
         }
-        for (auto &kv : worst) { printf("O FAIL %s\t%s\n", kv.first.c_str(), kv.second.c_str()); failCount[kv.first]++; }
+        for (auto &kv : worst) if (keyInMode(kv.first)) { printf("O FAIL %s\t%s\n", kv.first.c_str(), kv.second.c_str()); failCount[kv.first]++; }
         vh::stat("probe_series", long(timings.size()));
     }
     // ---- stage 2: big depth (stack use) for parsers that scaled linearly in depth and did not time out
@@ -894,7 +906,7 @@ int main(int argc, char **argv)
             for (size_t i = g_nRegress; i < g_docs.size(); i++)
                 if (i < g_nTop || m < perSub) work.push_back({ W_MUT, int(i), m, cheap[(g++) % cheap.size()], -1, 0, 0 });
         vh::Rng hr(g_cfg.seed * 77773ull + 5);
-        int quota = g_cfg.heavyQuota >= 0 ? g_cfg.heavyQuota : quick ? 12 : 100;
+        int quota = g_cfg.heavyQuota >= 0 ? g_cfg.heavyQuota : quick ? 8 : 60;
         for (int k : heavy)
             for (int q = 0; q < quota; q++) work.push_back({ W_MUT, int(g_nRegress + hr.below(uint32_t(g_docs.size() - g_nRegress))), 1000 + q, k, -1, 0, 0 });
         runStage("s3", work, 24);
@@ -981,6 +993,7 @@ int main(int argc, char **argv)
         for (size_t p = 0; p < g_table.size(); p++)
             if (T[C_PARSER0 + p] == 0 && g_table[p].typeChecked) {
                 std::string key = "C01:valid-document-rejected:" + fam(g_table[p].name);
+                if (!keyInMode(key)) continue;
                 printf("O FAIL %s\tparser=%s admitted none of %zu documents (corpus, sub-elements, hand-written seeds), e.g. for QXmppHashUsed <hash-used xmlns='urn:xmpp:hashes:2' algo='sha-256'/>\n", key.c_str(), g_table[p].name.c_str(), g_docs.size());
                 failCount[key]++;
             }
